@@ -603,6 +603,23 @@ fn decode_update(pdu: &[u8], afi: u16, safi: u8, addpath: bool) -> Result<Dec, S
     Ok(d)
 }
 
+/// the attributes of a framed section as a set: (type code, flags without the EXTENDED_LEN bit, value), by type code
+/// (`decode_update` has already refused repeated type codes); `None` = not a sequence of complete attributes
+fn attr_set(sec: &[u8]) -> Option<Vec<(u8, u8, Vec<u8>)>> {
+    let mut out = Vec::new();
+    let mut i = 0;
+    while i < sec.len() {
+        if i + 3 > sec.len() { return None; }
+        let (fl, tc) = (sec[i], sec[i + 1]);
+        let (n, h) = if fl & 0x10 != 0 { if i + 4 > sec.len() { return None; } (((sec[i + 2] as usize) << 8) | sec[i + 3] as usize, 4) } else { (sec[i + 2] as usize, 3) };
+        if i + h + n > sec.len() { return None; }
+        out.push((tc, fl & !0x10, sec[i + h..i + h + n].to_vec()));
+        i += h + n;
+    }
+    out.sort();
+    Some(out)
+}
+
 // ---------------------------------------------------------------- running the real code
 
 /// the property only says "an error": which ComposeError it is (and what its Display says) is
@@ -871,7 +888,10 @@ fn judge(c: &Case) -> Verdict {
                     descs.push(format!("{}:{}:{}:{}:{}:{}{}", d.len, d.wd.len(), d.ann.len(), d.other_attrs.len(), d.nh.as_ref().map_or(0, |n| n.len()), d.pa_len, dg(raw)));
                     if d.len > MAX_PDU { why.push(format!("message {} has {} bytes (> 4096)", k, d.len)); }
                     if !d.ann.is_empty() {
-                        if d.other_attrs != exp_attrs { why.push(format!("message {} announces NLRI without the full attribute set", k)); }
+                        // "the full attribute set": every attribute given, with its class flags and value, and no other - as
+                        // a SET; the order of the TLVs and the form of the length field (EXTENDED_LEN on a short value) are
+                        // not in the clause and are left to the correspondence (audit-r5 B5)
+                        if attr_set(&d.other_attrs) != attr_set(&exp_attrs) { why.push(format!("message {} announces NLRI without the full attribute set", k)); }
                         if d.nh.as_ref() != Some(&exp_nh) { why.push(format!("message {} announces NLRI without the given next hop", k)); }
                     }
                     if d.wd.is_empty() && d.ann.is_empty() && !input_empty { why.push(format!("message {} is empty although the input is not", k)); }
